@@ -782,7 +782,13 @@ def check_cls(c):
             pieces = []
             for j in range(len(bounds) - 1):
                 pieces.append([r[2 + j] + 0.2, (r[5 + j] - 0.5) * 1e-3])
-            sel = [j for j in range(len(pieces)) if bounds[j] <= T <= bounds[j + 1]][0]
+            outside = False
+            if not units and r[9] < 0.3:          # exactly on a bound: the first interval containing it (closed intervals)
+                T = bounds[int(r[8] * len(bounds)) % len(bounds)]
+            elif mode in ("math", "numpy") and r[9] < 0.4:
+                T = 50.0 if r[8] < 0.5 else 3000.0
+                outside = True
+            sel = ([j for j in range(len(pieces)) if bounds[j] <= T <= bounds[j + 1]] or [None])[0]
             ba = [Aq(b, "T", uc[1] + j) for j, b in enumerate(bounds)]
             pa = []
             for j, pc in enumerate(pieces):
@@ -797,6 +803,12 @@ def check_cls(c):
                 args += [pj, ba[j + 1]]
             expr = K(args)
             variables[pname] = V(pname, T, "T", uc[3])
+            if outside:
+                try:
+                    val = expr(variables, backend=backend)
+                except ValueError:
+                    return True, ""
+                return False, "%s at %r outside all intervals %r returned %r instead of raising ValueError" % (cls, T, bounds, val)
             want = _poly_val(pieces[sel], T)
             res_unit = 1 / u.s
         elif cls == "RampedTemp":
@@ -1005,7 +1017,8 @@ _RULE = {
                      "create_Piecewise, RampedTemp, SinTemp, GibbsEqConst, MassActionEq(+equilibrium_equation), Log10, Exp) at random arguments; "
                      "modes math, numpy, quantities in mixed units (K/kK, s/min, M / mol m-3, J/kJ/cal, ...) with Backend(), sympy symbols "
                      "then substituted; variants: plain, one named override through unique_keys (exactly that argument replaced), keys only "
-                     "(fk), string argument, nested expression argument, dict arguments, default standard state", "see rule"),
+                     "(fk), string argument, nested expression argument, dict arguments, default standard state; piecewise: arguments exactly "
+                     "on a bound (closed intervals, first match) and outside all intervals (ValueError with math/numpy)", "see rule"),
     "log10_symbolic": ("Log10('temperature'), Log10(TPoly) and ShiftedLog10TPoly with log10_temperature = Log10('temperature') evaluated with "
                        "backend=sympy, then substituted", "3 forms x T 200..2000"),
     "expr_trees": ("random trees of depth <= 5 over + - * / ** and negation (incl. double negation), operands that are plain ints/floats on "
